@@ -64,6 +64,17 @@ def lossy_op(v):
             if cur.func.id == 'sorted' and len(cur.args) >= 1 and isinstance(cur.args[0], ast.Attribute) \
                     and isinstance(cur.args[0].value, ast.Name) and cur.args[0].value.id == 'self':
                 return 'sorted() (the order of the list is part of its value)'
+            if cur.func.id in ('sorted', 'list', 'tuple') and len(cur.args) >= 1 and (
+                    isinstance(cur.args[0], (ast.Set, ast.SetComp)) or
+                    (isinstance(cur.args[0], ast.Call) and isinstance(cur.args[0].func, ast.Name)
+                     and cur.args[0].func.id in ('set', 'frozenset'))) \
+                    and any(isinstance(x, ast.Attribute) and isinstance(x.value, ast.Name) and x.value.id == 'self'
+                            for x in ast.walk(cur.args[0])):
+                return f'{cur.func.id}() of a set built from a list field (order and repeated entries are part of its value)'
+            if cur.func.id in ('set', 'frozenset') and cur.args and any(
+                    isinstance(x, ast.Attribute) and isinstance(x.value, ast.Name) and x.value.id == 'self'
+                    for x in ast.walk(cur.args[0])):
+                return 'set() of a list field (order and repeated entries are part of its value)'
             if cur.func.id in ('str', 'float', 'int', 'bool', 'repr') and len(cur.args) == 1:
                 cur = cur.args[0]
                 continue
